@@ -748,6 +748,7 @@ class StateProp2(StateProp):
         special = {k: v for k, v in pins.items() if k.startswith("$")}
         named = {k: v for k, v in pins.items() if not k.startswith("$")}
         pinned = self._pinned_locals(fn, named)
+        fixed = set(pinned)        # a pinned local keeps the pinned value at its own declaration
         start = (in_tok, frozenset(((("nz", d), True) if v == ("nzptr",) else (d, v))
                                    for d, v in pinned.items()), ())
         IN = {b: set() for b in cfg.blocks}
@@ -796,7 +797,7 @@ class StateProp2(StateProp):
                         items = {(it[0], _kill(it[1], d), it[2]) for it in items}
                 elif k == "DeclStmt":
                     for d in n.get("decls", []):
-                        if d.get("init") is not None and "decl" in d:
+                        if d.get("init") is not None and "decl" in d and d["decl"] not in fixed:
                             items = self._bind(fn, d["decl"], d["init"], items, special)
                 elif k == "CXXMemberCallExpr":
                     new = set()
@@ -1009,8 +1010,11 @@ def _report_table_conflicts(ctx, label, tb, names_by_table, where):
                 if v not in vals:
                     vals.append(v)
             n += 1
+            kn = ":".join(names_by_table(name, key))
+            if len(vals) == 1:
+                ctx.ok(RULE, "%s:table:%s:%s" % (label, name, kn), writes[-1][1], "",
+                       detail={"value": _vname(vals[0]), "writes": len(writes)})
             if len(vals) > 1:
-                kn = ":".join(names_by_table(name, key))
                 ctx.bad(RULE, "%s:table:%s:%s" % (label, name, kn), writes[-1][1], "",
                         msg="%s[%s] is assigned %d different values (%s); only the last one is effective"
                         % (name, kn, len(vals), ", ".join(_vname(v) for v in vals)),
@@ -1406,7 +1410,7 @@ def rule_dataparser(ctx):
     sname = A.states
     tname = {e["v"]: e["name"] for e in X["tags_e"]}
     n_init = _check_init_calls(ctx, tb, X, sname, tname, A.error)
-    ctx.floor(RULE, 270, n_init, "DataParser init() calls")
+    ctx.floor(RULE, 250, n_init, "DataParser init() calls")
     configs, edges, reach, n_trans = check_automaton(ctx, RULE, A)
     for k in sp.used_fns:
         ctx.saw(k)
@@ -2048,3 +2052,48 @@ def rule_xsd_adjxml(ctx):
         ctx.report(RULE, "adjxml:vocabulary:%s" % name, not problems,
                    where.get(name, tag_fn.where()), anchor.short, msg="; ".join(problems), detail=member)
     ctx.floor(RULE, 95, n, "adjustment-XML element names compared")
+
+
+# --------------------------------------------------------------------------- GKFparser: error escape
+
+def rule_gkf_escape(ctx):
+    """Supplement to fsm.rule_gkf (whose propagation does not remember that error() was already called):
+    no start/end transition of GKFparser calls error() and then overwrites the state with a non-error
+    value - the stored diagnostic would never be thrown (BaseParser::xml_parse only tests state == 0)."""
+    fx = ctx.facts
+    cls = "GNU_gama::local::GKFparser"
+    A0, sp0, tag_fn = fsm.extract_gkf(ctx)
+    start_fn = fx.fn(cls + "::startElement")
+    end_fn = fx.fn(cls + "::endElement")
+    tag_local = None
+    for n in start_fn.walk():
+        if n.get("k") == "DeclStmt":
+            for d in n.get("decls", []):
+                if d.get("init") is not None and any(
+                        is_call(x) and x.get("calleeKey") == tag_fn.key for x in walk(d["init"])):
+                    tag_local = d["name"]
+    if tag_local is None:
+        raise AnalysisBroken("GKFparser::startElement: local initialised from tag() not found")
+    hier = {cls, "GNU_gama::CoreParser", "GNU_gama::BaseParser"}
+    sp = StateProp2(fx, hierarchy=hier, error_value=A0.error)
+    configs, _ = A0.explore()
+    reach = {s for s, _ in configs}
+    n = 0
+    for s in sorted(reach):
+        if s == A0.error:
+            continue
+        trans = [("end", None, sp.run2(end_fn, ("c", s, "in"), {}))]
+        for t in sorted(A0.tags):
+            trans.append(("start", t, sp.run2(start_fn, ("c", s, "in"), {tag_local: t})))
+        for kind, t, items in trans:
+            esc = sorted({A0.sname(tok[1]) for tok, _ in items if tok != TOP and tok[2] == "escaped"})
+            if kind == "start" and not esc and all(tok != TOP and tok[1] == A0.error for tok, _ in items):
+                continue            # a refused tag: nothing to decide
+            n += 1
+            key = "GKFparser:error-escape:%s:%s" % (A0.sname(s), A0.tname(t) if t is not None else "end")
+            ctx.report(RULE, key, not esc, (start_fn if kind == "start" else end_fn).where(), "",
+                       msg="" if not esc else "after error() the state is overwritten with %s: the recorded "
+                       "diagnostic is never thrown and parsing continues" % esc)
+    for k in sp.used_fns:
+        ctx.saw(k)
+    ctx.floor(RULE, 40, n, "GKFparser accepting transitions checked for error escape")
